@@ -49,6 +49,12 @@ def candidates():
                 re_ = max(-70, min(70, le + diff))
             else:
                 le = rng.choice([-8, -6, -3, -2, -1, 0, 1, 2, 4]); re_ = max(-9, min(6, le + rng.choice([-5, -4, -3, -2, -1, 0, 0, 1, 2, 3, 4, 5])))
+                if rng.random() < 0.35:
+                    # large decimal exponent differences (6..9 digits): 10^k still fits int, so 8/16-bit reps have in-domain values
+                    l = rng.choice(BUILTIN[:4]); r = rng.choice(BUILTIN[:6])
+                    le = rng.choice([-9, -8, -7, -6, 0]); re_ = le + rng.choice([6, 7, 8, 9])
+                    if rng.random() < 0.5:
+                        l, r, le, re_ = r, l, re_, le
             plain = 0
             if radix == 2 and rng.random() < 0.12 and op != "NEG" and op != "QUOT":
                 plain = rng.choice([1, 2])
